@@ -91,9 +91,14 @@ class Gen:
             k = self.r.choice(ATTR_KEYS)
             d[k] = self.r.choice(vals)
         if nested and self.r.random() < 0.5:
-            d["tags"] = [self.r.randint(0, 3)]
-            if self.r.random() < 0.4:
+            shape = self.r.random()
+            if shape < 0.6:
+                d["tags"] = [self.r.randint(0, 3)]
+            if 0.4 < shape < 0.8:
                 d["meta"] = {"k": [self.r.randint(0, 3)]}
+            if shape > 0.7:
+                # a mutable object inside an immutable container
+                d["span"] = ([self.r.randint(0, 3)], "closed")
         return d
 
     def mtype(self):
